@@ -66,7 +66,8 @@ class Numbers:
             v = self.r.randrange(lo, hi)
             if v not in self.used:
                 self.used.add(v)
-                return str(v)
+                # numbers are sometimes written zero-padded ("0512"): still the number 512
+                return str(v) if self.r.random() > 0.15 else "0" * self.r.randrange(1, 3) + str(v)
 
     def content(self, name: str) -> str:
         """A well-formed content for the (sub-)parameter of that name."""
